@@ -134,14 +134,14 @@ def dynamic(ctx, H, variants, seeds, fresh_sample, rng):
             for v in variants:
                 if 'only' in spec and v[0] not in spec['only']:
                     continue
-                clauses = ('args', 'repeat', 'uninit') if spec.get('cache_accessor') else \
-                    ('args', 'repeat', 'uninit', 'result-mutation')
+                clauses = ('args', 'repeat', 'uninit', 'arg-reuse') if spec.get('cache_accessor') else \
+                    ('args', 'repeat', 'uninit', 'result-mutation', 'arg-reuse')
                 try:
                     fails, info = H['check_case'](call, v, seed, clauses)
                 except Exception as e:       # noqa
                     raise RuntimeError('harness error in %s #%d %r: %r' % (k, i, v, e))
                 stats['cases'] += 1
-                stats['evaluations'] += 3 + (1 if 'result-mutation' in clauses else 0)
+                stats['evaluations'] += 4 + (1 if 'result-mutation' in clauses else 0)
                 stats['by_variant']['%s/%s' % v] = stats['by_variant'].get('%s/%s' % v, 0) + 1
                 if info['outcome'] == 'ok':
                     stats['ok_cases'] += 1
@@ -169,6 +169,8 @@ def dynamic(ctx, H, variants, seeds, fresh_sample, rng):
                     elif clause == 'result-mutation':
                         dyn_cache_returners.add(k)
                         kd = detail.split('differs at ')[1].split(',')[0].strip()
+                    elif clause == 'arg-reuse':
+                        kd = '+'.join(lab for lab, arr, base, b in H['one_call'](call, v, seed, None)[0].made)
                     else:
                         kd = input_class(A)
                     hits.append(mk_hit(k, call, v, seed, clause, detail, kd, dict(callable=k, call_index=i)))
@@ -199,6 +201,21 @@ def dynamic(ctx, H, variants, seeds, fresh_sample, rng):
             if d1 != d0:
                 others = [c for (_, c, _) in lst[first + 1:] + lst[:first]]
                 hits.append(mk_hit_history(k, i0, call0, others, v0, seeds[0], H['diff_paths'](d0, d1)[:4]))
+                continue
+            # ... and after each other call alone (a long history can repair a cache that one
+            # call has corrupted: e.g. a later call with another size rebuilds the matrices)
+            for (j, callj, specj) in lst[first + 1:] + lst[:first]:
+                if 'only' in specj and v0[0] not in specj['only']:
+                    continue
+                clean_caches()
+                H['one_call'](call0, v0, seeds[0], float('nan'))
+                H['one_call'](callj, v0, seeds[0], float('nan'))
+                A2, r2, e2 = H['one_call'](call0, v0, seeds[0], float('nan'))
+                d2 = H['exc_digest'](e2) if e2 is not None else H['digest'](r2)
+                stats['evaluations'] += 3
+                if d2 != d0:
+                    hits.append(mk_hit_history(k, i0, call0, [callj], v0, seeds[0], H['diff_paths'](d0, d2)[:4]))
+                    break
     # fresh-process repeats
     if jobs:
         digs, errs = run_children(jobs)
@@ -325,7 +342,7 @@ def run(ctx):
     if not pr['ok']:
         ex = res['exceptions'] if res is not None else {}
         unexpected = sorted(k for k, w in preview.items()
-                            if (w['arg_writes'] and k not in ex.get('writers', []) + ex.get('unproved', []))
+                            if (set(w['arg_writes']) - set(ex.get('unproved_positions', {}).get(k, [])) and k not in ex.get('writers', []))
                             or (w['returns_cached'] and k not in ex.get('returners', []) + ex.get('accessors', [])))
         broken.append(('proof', pr['broken'] or 'props/C18.v',
                        (pr['error'] or '') + ' | callables the alias checker rejects outside the listed exceptions: %s'
@@ -363,9 +380,9 @@ def run(ctx):
         broken.append(('translation-validation', 'alias programs vs observed behaviour',
                        'the checker accepts %s but the run modified an argument / returned a cached array' % contradicted))
     ctx.cov.update(evaluations=st['evaluations'], distinct_nontrivial=st['distinct'],
-                   rule='one evaluation = one call of a public callable on freshly built arguments (4 per case: '
+                   rule='one evaluation = one call of a public callable on freshly built arguments (5 per case: '
                         'NaN-poisoned np.empty, repeat, differently poisoned np.empty, after overwriting all returned '
-                        'arrays; +1 per fresh-process repeat); a case is distinct by (callable, call expression, dtype, '
+                        'arrays, after overwriting the argument arrays of the earlier calls; +1 per fresh-process repeat); a case is distinct by (callable, call expression, dtype, '
                         'layout) and counted only when the call returned normally',
                    samples=st['samples'], traces_validated_against_impl=agree,
                    input_distribution=dict(by_variant=st['by_variant'], raised=st['raised'], cases=st['cases'],
